@@ -197,6 +197,33 @@ func kmeansScenario(procs int) {
 		}})
 }
 
+
+// rasterScenario: Rasterizer.RasterizeSolid / RasterizeSolidFilter hand the pixels to essentials.ConcurrentMap
+// workers that write into one shared image; the image must equal the single-worker image under every schedule.
+func rasterScenario(procs int, filtered bool) {
+	run := func() string {
+		solid := model2d.JoinedSolid{&model2d.Circle{Center: model2d.XY(0.1, 0.2), Radius: 0.7}, &model2d.Rect{MinVal: model2d.XY(-1, -0.3), MaxVal: model2d.XY(0, 0.1)}}
+		rs := &model2d.Rasterizer{Scale: 2.6, Subsamples: 2}
+		if filtered {
+			img := rs.RasterizeSolidFilter(solid, func(rc *model2d.Rect) bool { return rc.MinVal.X < 0.2 })
+			return fmt.Sprint(img.Rect, img.Pix)
+		}
+		img := rs.RasterizeSolid(solid)
+		return fmt.Sprint(img.Rect, img.Pix)
+	}
+	name := fmt.Sprintf("raster/solid/procs%d", procs)
+	if filtered {
+		name = fmt.Sprintf("raster/solid-filter/procs%d", procs)
+	}
+	register(scenario{name: name, procs: procs, prop: "C13", about: "rasteriser pixel workers writing one shared image",
+		body: run, want: func() string {
+			old := vsched.NumProcs
+			vsched.NumProcs = 1
+			defer func() { vsched.NumProcs = old }()
+			return run()
+		}})
+}
+
 func cacheFuncScenario() {
 	run := func() string {
 		f := model2d.CacheScalarFunc(func(x float64) float64 { return x*x + 1 })
@@ -317,4 +344,7 @@ func init() {
 	heightMapScenario(2, 3)
 	heightMapScenario(2, 4)
 	heightMapScenario(3, 4)
+	rasterScenario(2, false)
+	rasterScenario(3, false)
+	rasterScenario(2, true)
 }
